@@ -93,4 +93,20 @@ PLANS = {
             "being modified is not asserted (probe idmap_visit_unstable_under_remove)",
         ],
     },
+    "C09": {
+        "level": "exploration",
+        "rule": NT_RULE + "; C09: at least one message reached a connected peer and was checked against the model",
+        "budget_s": {"quick": 50, "thorough": 900},
+        "scenarios": [
+            S("c09_mesh", 800, 24000),
+            S("c09_raw", 600, 18000),
+            S("c09_device", 500, 15000),
+            S("c09_conc", 600, 18000),
+            S("c09_flood", 300, 9000),
+            S("c09_nbsend", 40, 1200),
+        ],
+        "assumptions": ["paced scenarios rely on sim_quiesce to make 'arrival' a definite point and on harness-driven "
+                        "pipe arrivals/departures (dialers are retired after a pipe close so no redial timer fires mid-operation)",
+                        "NNG_FLAG_NONBLOCK sends are confined to c09_nbsend (known finding bus_nonblock_eagain ends those runs at the first send)"],
+    },
 }
